@@ -582,6 +582,11 @@ func c37ConcChild(tier string, idx, of int) int {
 			run.Count("histories_with_overlapping_phase_writers", 1)
 		}
 		res, _ := porcupine.CheckOperationsVerbose(model, out.Ops, 10*time.Second)
+		if res == porcupine.Unknown {
+			// a loaded machine, not a hard history: these checks take milliseconds. Retry with a generous watchdog.
+			run.Count("porcupine_retries_after_timeout", 1)
+			res, _ = porcupine.CheckOperationsVerbose(model, out.Ops, 120*time.Second)
+		}
 		run.Count("porcupine_checks", 1)
 		run.Distinct("conc:" + strings.Join(describeOrder(out.Ops), ";"))
 		if k < 1 && idx == 0 {
